@@ -680,6 +680,12 @@ class Simulation:
                    self.survey.frequencies[freq], 'center': center}
             self._dict_grid[source][freq] = meshes.construct_mesh(**inp)
 
+        # Provided source- and frequency-dependent grids.
+        elif self.gridding == 'dict':
+
+            # Store link to grid.
+            self._dict_grid[source][freq] = self.gridding_opts[source][freq]
+
         # Use a single grid for all sources and receivers.
         # Default case; catches 'single' but also anything else.
         else:
